@@ -400,7 +400,14 @@ def check_config(cfg, rng, ctr):
             for det in GROUP_DETECTORS:
                 tealer.register_detector(classes[det])
             for dobj in tealer.detectors:
-                outs = dobj.detect()
+                try:
+                    outs = dobj.detect()
+                except Exception as e:   # the configuration was accepted and analysed; a detector that raises gives no verdict at all
+                    import traceback
+                    ctr["configurations"] += 1
+                    return [{"kind": "group-detector-raised", "key": dobj.NAME,
+                             "what": "%s raised %s: %s in group mode on an accepted configuration" % (dobj.NAME, type(e).__name__, str(e)[:160]),
+                             "trace": traceback.format_exc()[-600:], "config": {"txns": cfg["txns"]}}], False
                 ids = set()
                 for o in outs:
                     ids.update(t.transacton_id for t in o.transactions)
